@@ -305,7 +305,11 @@ func corrupt(t *verifsim.Tape, f, v string) (string, string) {
 			return v + ".", "trailing-dot"
 		}
 	case "ipv6":
-		switch t.Draw("corr", 4) {
+		switch t.Draw("corr", 6) {
+		case 4: // a zone identifier (RFC 4007) is not part of an address literal
+			return v + "%" + []string{"eth0", "1", "lo"}[t.Draw("zone", 3)], "zone-suffix"
+		case 5:
+			return v + "/64", "prefix-length"
 		case 0:
 			return "g" + v, "non-hex"
 		case 1:
@@ -316,7 +320,12 @@ func corrupt(t *verifsim.Tape, f, v string) (string, string) {
 			return "12345" + v, "five-digit-group"
 		}
 	case "ip":
-		switch t.Draw("corr", 3) {
+		switch t.Draw("corr", 4) {
+		case 3:
+			if strings.Contains(v, ":") {
+				return v + "%eth0", "zone-suffix"
+			}
+			return v + ":80", "port"
 		case 0:
 			return v + "/", "trailing-slash"
 		case 1:
